@@ -365,8 +365,8 @@ def main():
     stdout_carry_over(chk, stats)
     chk.sample({'compile_history': [TRUNCATIONS[2], 'on all']})
     chk.sample({'run_history': ['complete', 'complete', 'stopped-after-k-events', 'complete']})
-    # two scripts at the same time (harness/concurrent.py): each must compute what it computes alone
-    import concurrent as _cc
+    # two scripts at the same time (harness/twoscripts.py): each must compute what it computes alone
+    import twoscripts as _cc
     _problems, _n = _cc.isolation_cases(chk.rng, 25 if chk.thorough else 3)
     stats['concurrent_pairs'] = _n
     chk.count(_n)
